@@ -925,6 +925,7 @@ func NewZeroCopyPacketSource(source ZeroCopyPacketDataSource, decoder Decoder, o
 		source:  source.ZeroCopyReadPacketData,
 		decoder: decoder,
 	}
+	ps.zeroCopy = true
 
 	for idx := range opts {
 		opts[idx].apply(ps)
